@@ -117,8 +117,14 @@ pub fn gen_scenario(property: &str, seed: u64) -> Scenario {
             let _ = cfg_d;
             prefix.push(add(0, 0, 0, 0));
             let n = if cfg.duration < 100 { cfg.duration + cfg.grace } else { 2 };
-            for _ in 0..n.saturating_sub(1) {
-                prefix.push(Op::Mine { txs: vec![] });
+            // sometimes the dispute of the late request is already within the six-block window (triggered on arrival)
+            let cached = r.chance(1, 2);
+            for i in 0..n.saturating_sub(1) {
+                if cached && i + 2 == n {
+                    prefix.push(Op::Mine { txs: vec![TxRef::Dispute(1)] });
+                } else {
+                    prefix.push(Op::Mine { txs: vec![] });
+                }
             }
             prefix.push(Op::Poll);
             prefix.push(Op::Mine { txs: vec![TxRef::Dispute(0)] });
@@ -476,6 +482,15 @@ pub fn explore_scenario(sc: &Scenario, n_sched: usize) -> ScenarioOutcome {
             });
             continue;
         }
+        if let Some(d) = &r.late_submission {
+            let (kind, what) = d.split_once('|').unwrap_or(("?", d.as_str()));
+            out.found.push(CFound {
+                property: "C02",
+                signature: format!("C02|submission_after_owner_removed:{kind}|concurrent"),
+                detail: format!("threads [{kinds}] under {spec:?}: {what}"),
+                strat: replay.clone(),
+            });
+        }
         if let Some(d) = &r.conf_mismatch {
             out.found.push(CFound {
                 property: "C04",
@@ -548,6 +563,16 @@ pub fn recheck(sc: &Scenario, spec: &Option<StratSpec>, property: &str, signatur
                         o.found.push(CFound { property: "C11", signature: sig, detail: d, strat: None });
                     } else if let Err(e) = &r.live {
                         o.found.push(CFound { property: "C11", signature: format!("C11|not_live|concurrent|{}", first_line(e)), detail: e.clone(), strat: None });
+                    } else if property == "C02" {
+                        if let Some(d) = &r.late_submission {
+                            let (kind, what) = d.split_once('|').unwrap_or(("?", d.as_str()));
+                            o.found.push(CFound {
+                                property: "C02",
+                                signature: format!("C02|submission_after_owner_removed:{kind}|concurrent"),
+                                detail: what.to_string(),
+                                strat: None,
+                            });
+                        }
                     } else if property == "C04" {
                         if let Some(d) = &r.conf_mismatch {
                             o.found.push(CFound {
